@@ -10,8 +10,49 @@ import KafkaVerif.Spec.Layout
 import KafkaVerif.Lemmas.FetchDecoder
 import KafkaVerif.Model.ReaderLoop
 import KafkaVerif.Model.ReaderFront
+import KafkaVerif.Gen.DecoderFacts
 
 namespace KV.C02
+
+/-! ## R. Regenerated tie: the structural facts of the source the model relies on
+
+`Gen/DecoderFacts.lean` is re-extracted (go/ast, `go/extract/decoder.go`) from message_reader.go, batch.go, conn.go and
+reader.go of the tree under test on every run; the theorems below compare it with what the model assumes, so an
+edit of one of these places breaks `lake build` (and the theorems of §1–§3 are re-stated for `currentVariant`). -/
+
+/-- which model variant a set of source facts describes -/
+def variantOfFacts (f : Gen.DecoderFacts) : Option Variant :=
+  if f.skipEmptyLoop ∧ f.batchEndOnEmpty ∧ f.batchEndOnLast ∧ f.batchEndApplied ∧
+     f.jumpGuard = "errors.Is(batch.err, io.EOF) && batch.msgs.lengthRemain == 0 && batch.lastOffset >= batch.offset" ∧
+     f.oorSeeksConn then some .fixed
+  else if !f.skipEmptyLoop ∧ !f.batchEndOnEmpty ∧ !f.batchEndOnLast ∧ !f.batchEndApplied ∧
+     f.jumpGuard = "errors.Is(batch.err, io.EOF) && batch.msgs.lengthRemain == 0 && batch.lastOffset != -1" ∧
+     !f.oorSeeksConn then some .legacy
+  else none
+
+/-- the variant of the code as it is now (`legacy` also stands for "not recognised": then `current_code_is_fixed` fails) -/
+def currentVariant : Variant := (variantOfFacts Gen.decoderFacts).getD .legacy
+
+/-- the repaired shapes are all in place: the empty-batch skip loop in readMessage, the three `batchEnd` sites, the
+monotone jump guard, the conn seek in the OffsetOutOfRange branch -/
+theorem current_code_is_fixed : currentVariant = .fixed := by decide
+
+/-- header sizes and payload offsets are the ones the token sizes and the `lengthRemain` accounting of the model use -/
+theorem decoder_constants :
+    Gen.decoderFacts.hdrV2 = (Tok.h2 0 0 0 false 0).size ∧
+    Gen.decoderFacts.hdrV1 = (Tok.h1 1 0 false).size ∧
+    Gen.decoderFacts.hdrV0 = (Tok.h1 0 0 false).size ∧
+    Gen.decoderFacts.v2PayloadOffset = 49 ∧ Gen.decoderFacts.v2BatchRemainOffset = 49 ∧
+    Gen.decoderFacts.hdrV2 = Gen.decoderFacts.v2PayloadOffset + 12 ∧
+    Gen.decoderFacts.v1LengthRemain = 1 := by decide
+
+/-- the remaining statements the model transcribes: next offset = offset + 1 (Batch and reader loop), the skip loop
+of ReadMessage compares with the conn offset strictly, `highWaterMark == offset` gives the empty reader, Close stores
+the batch offset into the conn -/
+theorem decoder_statements :
+    Gen.decoderFacts.nextOffsetPlus = 1 ∧ Gen.decoderFacts.readerNextOffsetPlus = 1 ∧
+    Gen.decoderFacts.skipBelow = "batch.conn != nil && offset < batch.connOffset()" ∧
+    Gen.decoderFacts.emptyWhenHwmEqOffset = true ∧ Gen.decoderFacts.closeStoresOffset = true := by decide
 
 /-! ## 0. The defects of the pinned code (`Variant.legacy`), kept as theorems about the legacy model
 
@@ -55,24 +96,27 @@ theorem compacted_tail_fixed :
     fetchOnce .fixed d15Layout 112 100 100 = ([(100, 7), (101, 8)], 110, .eof) ∧
     fetchOnce .fixed d15Layout 112 110 100 = ([(110, 9), (111, 10)], 112, .eof) := by decide
 
-/-! ## 1. One fetch round (`Conn.ReadBatch`, `ReadMessage` until it fails, `Close`) on the repaired code
+/-! ## 1. One fetch round (`Conn.ReadBatch`, `ReadMessage` until it fails, `Close`) on the repaired code -/
 
-Full statement (DESIGN §7 C02 `single_fetch`): for every layout `L` of a log — message formats 0, 1 and 2 — every
-byte cut and every start offset `o`: the delivered sequence is exactly the completely contained records of `L` with
-offset ≥ o (hence increasing, each once, digests intact), the decoder never desynchronises/panics, and no stored
-record `r` with `o ≤ r.offset < connOffset'` is undelivered.
+/-- `single_fetch`: for every well-formed layout `L` of a log (`LWF`: message formats 0, 1 and 2 in any mixture, plain
+and compressed v2 batches, v0/v1 plain messages and compressed wrappers with relative or absolute inner offsets,
+compaction holes at the head, inside and at the tail of batches, any number of retained empty batches, whole-batch
+gaps), every byte cut (or none), every start offset `o ≥ 0`, deadline expired or not:
+the delivered sequence is exactly the completely contained records of `L` with offset ≥ o (hence in increasing order,
+each once, digests intact); the decoder never desynchronises/panics; no stored record `r` with
+`o ≤ r.offset < connOffset'` is undelivered; everything delivered is below `connOffset'`.
 
-Proved below for all layouts made of v2 record batches (`V2WF`: plain or compressed batches, compaction holes at the
-head, inside and at the tail, any number of retained empty batches, whole-batch gaps; any cut, any `o`, deadline
-expired or not) — the part of the code D4/D14/D15 live in.  For v0/v1 messages and wrappers (and mixed logs) the same
-statement is checked by the correspondence + monitor on generated layouts only, hence the name `_partial`. -/
-
-theorem single_fetch_partial (items : List Item) (nb : Int) (hnb : 0 ≤ nb) (hwf : V2WF nb items)
-    (o hwm : Int) (ho : 0 ≤ o) (hne : hwm ≠ o) (cut : Int) (expired : Bool) :
+`Safe o L` is the one restriction the code really has: readMessageV1's loop cannot step from a v0/v1 message it
+*skipped* into a v2 batch; it holds for every response obeying the fetch contract (`safe_of_contract`), for pure v2
+(`safe_of_v2`) and pure v0/v1 (`safe_of_v1`) layouts at any offset. -/
+theorem single_fetch (items : List Item) (nb : Int) (hnb : 0 ≤ nb) (hwf : LWF nb items)
+    (o hwm : Int) (ho : 0 ≤ o) (hsafe : Safe o items) (hne : hwm ≠ o) (cut : Int) (expired : Bool) :
     let res := readAll .fixed expired o hwm (responseTokens items cut)
     res.1 = (containedRecords items cut).filter (fun r => o ≤ r.1) ∧
     res.2.2 ≠ .desync ∧
-    (∀ r ∈ allRecords items, o ≤ r.1 → r.1 < res.2.1 → r ∈ res.1) := by
+    (∀ r ∈ allRecords items, o ≤ r.1 → r.1 < res.2.1 → r ∈ res.1) ∧
+    (∀ r ∈ res.1, r.1 < res.2.1) ∧
+    res.1.Pairwise (fun a b => a.1 < b.1) := by
   -- reduce both cases of `cut` to `runCut` with a byte budget
   have key : ∀ n : Nat, (cut < 0 → itemsSize items ≤ n ∧ totalSize (allTokens items) ≤ n) → (0 ≤ cut → n = cut.toNat) →
       run .fixed expired o { off := o } (responseTokens items cut) = runCut .fixed expired o { off := o } (allTokens items) n ∧
@@ -91,33 +135,101 @@ theorem single_fetch_partial (items : List Item) (nb : Int) (hnb : 0 ≤ nb) (hw
     · exact ⟨itemsSize items + totalSize (allTokens items), fun _ => ⟨by omega, by omega⟩, fun h => by omega⟩
     · exact ⟨cut.toNat, fun h => absurd h hc, fun _ => rfl⟩
   obtain ⟨hrun, hcont⟩ := key n hn1 hn2
-  have hp := v2_run expired o items nb { off := o } n hwf (bnd_init ho hnb)
+  have hp := layout_run expired o items nb { off := o } n hwf hsafe (bnd_init ho hnb _)
   simp only [readAll, hne, if_false, hrun, hcont]
-  refine ⟨by simpa using hp.out, hp.ok, ?_⟩
+  have hout := hp.out
+  simp only [List.nil_append] at hout
+  refine ⟨hout, hp.ok, ?_, fun r hr => (hp.resok.1 r hr).2, hp.resok.2⟩
   intro r hr h1 h2
-  rw [hp.out]
-  simp only [List.nil_append, List.mem_filter, decide_eq_true_eq]
+  rw [hout]
+  simp only [List.mem_filter, decide_eq_true_eq]
   exact ⟨hp.nogap r hr h1 h2, h1⟩
 
-/-- the hypotheses are met by a log with compaction holes, an empty batch and a compressed batch -/
-example : V2WF 0 [.b2 100 104 false 36 [(0, 1, 12), (2, 2, 12), (3, 3, 12)], .b2 105 109 false 0 [],
-    .b2 112 115 true 40 [(1, 4, 20), (3, 5, 20)]] := by simp [V2WF, RecsWF, sumSizes]
+/-- the hypotheses are met by a mixed log: v1 plain message, v1 wrapper with a hole (relative inner offsets 0,2 of base
+98), v2 batch with holes, an empty batch and a compressed batch; start offset inside the wrapper -/
+example : LWF 0 [.m 1 97 1 60, .w 1 100 90 [(0, 2), (2, 3)], .b2 101 104 false 36 [(0, 1, 12), (2, 2, 12), (3, 3, 12)],
+    .b2 105 109 false 0 [], .b2 112 115 true 40 [(1, 4, 20), (3, 5, 20)]] ∧
+    Safe 99 [.m 1 97 1 60, .w 1 100 90 [(0, 2), (2, 3)], .b2 101 104 false 36 [(0, 1, 12), (2, 2, 12), (3, 3, 12)],
+    .b2 105 109 false 0 [], .b2 112 115 true 40 [(1, 4, 20), (3, 5, 20)]] := by
+  simp [LWF, RecsWF, InnerWF, sumSizes, wrapperBase, hdr1Size, Safe, headB2, isB2, Item.last]
 
-/-! ## 2. Repeated fetches
+/-- without `Safe` the statement is false of the code: a v1 message below the start offset followed by a v2 batch
+(a response no contract-obeying broker sends) makes readMessageV1's loop parse the batch header as a message -/
+theorem unsafe_layout_counterexample :
+    (readAll .fixed false 8 20 (responseTokens [.m 1 5 1 60, .b2 10 11 false 12 [(0, 2, 12)]] (-1))).2.2 = .desync := by decide
 
-Full statement (`iterated_fetch`): for every sequence of broker answers obeying the fetch contract the concatenated
-deliveries are the log from the start offset, gap-free and duplicate-free (invariant: delivered = log ∩ [start, connOffset)).
-Not proved in general here (it needs, on top of `single_fetch_partial`, the lower bound "everything delivered is below
-the new conn offset" carried through the same invariant); checked by the `iter` correspondence + monitor on generated
-logs and budgets, and on the defect layouts below. -/
+/-- observation (a), not a finding: *outside* the fetch contract — a response cut inside its first v2 batch — the
+records below the start offset that were read and skipped leave the position below it (103 → 102); a later complete
+response would then hand out record 102.  No broker produces this: v2 batches are only sent for fetch v4+, where
+(KIP-74) the first batch always comes whole; for fetch v2 the data is v0/v1, whose items are read whole or not at all.
+Under the contract `fetch_progress` excludes it. -/
+theorem first_batch_cut_moves_back_example :
+    readAll .fixed false 103 106 (responseTokens [.b2 99 103 false 73 [(2, 1, 18), (3, 2, 48), (4, 3, 7)]] 81)
+      = ([], 102, .eof) := by decide
 
-theorem iterated_fetch_partial :
-    (fetchSeq .fixed d15Layout 112 100 [100, 100]).1 = (allRecords d15Layout).filter (fun r => 100 ≤ r.1) ∧
-    (fetchSeq .fixed d14Layout 108 100 [1, 1, 1, 1]).1 = (allRecords d14Layout).filter (fun r => 100 ≤ r.1) := by decide
+/-- observation (c), not a finding: an empty batch that still carries a compression attribute and a payload (the log
+cleaner writes empty batches as a bare header, `LWF` says so) desynchronises the decoder -/
+theorem compressed_empty_batch_desync_example :
+    (readAll .fixed false 100 120 (responseTokens [.b2 100 101 true 20 [], .b2 102 103 false 12 [(0, 1, 12)]] (-1))).2.2
+      = .desync := by decide
+
+/-! ## 2. Repeated fetches against a broker that obeys the fetch contract -/
+
+/-- `fetch_progress`: when the broker has anything at or after the position (`dropBefore q L ≠ []`) and is not at the
+high watermark, one round moves the Conn strictly forward — whatever the byte budget, because the first batch comes
+whole.  (This is what D15 broke: `compacted_tail_stuck_counterexample`.)  It never moves backwards. -/
+theorem fetch_progress (items : List Item) (nb : Int) (hnb : 0 ≤ nb) (hwf : LWF nb items) (hwm q : Int) (hq : 0 ≤ q)
+    (budget : Nat) :
+    q ≤ (fetchOnce .fixed items hwm q budget).2.1 ∧
+    (hwm ≠ q → dropBefore q items ≠ [] → q < (fetchOnce .fixed items hwm q budget).2.1) :=
+  let h := fetch_round items nb hnb hwf hwm q hq budget
+  ⟨h.1, h.2.2.2.2.2⟩
+
+/-- `iterated_fetch`: for every well-formed log, every start offset and every sequence of byte budgets (= every sequence
+of answers of a broker obeying the fetch contract), the concatenation of what the rounds deliver is exactly the log
+between the start offset and the final conn offset: every delivered message is a stored record in that range
+(duplicate-free and in order: strictly increasing offsets), and no stored record in that range is missing. -/
+theorem iterated_fetch (items : List Item) (nb : Int) (hnb : 0 ≤ nb) (hwf : LWF nb items) (hwm start : Int) (hs : 0 ≤ start)
+    (budgets : List Nat) :
+    let res := fetchSeq .fixed items hwm start budgets
+    start ≤ res.2 ∧
+    (∀ r ∈ res.1, r ∈ allRecords items ∧ start ≤ r.1 ∧ r.1 < res.2) ∧
+    (∀ r ∈ allRecords items, start ≤ r.1 → r.1 < res.2 → r ∈ res.1) ∧
+    res.1.Pairwise (fun a b => a.1 < b.1) :=
+  fetchSeq_inv items nb hnb hwf hwm budgets start hs
+
+/-- … so once the conn offset has reached the high watermark everything from the start offset on has been delivered -/
+theorem iterated_fetch_complete (items : List Item) (nb : Int) (hnb : 0 ≤ nb) (hwf : LWF nb items) (hwm start : Int)
+    (hs : 0 ≤ start) (budgets : List Nat) (hall : ∀ r ∈ allRecords items, r.1 < hwm)
+    (hend : (fetchSeq .fixed items hwm start budgets).2 = hwm) :
+    ∀ r ∈ allRecords items, start ≤ r.1 → r ∈ (fetchSeq .fixed items hwm start budgets).1 := by
+  intro r hr h1
+  exact (iterated_fetch items nb hnb hwf hwm start hs budgets).2.2.1 r hr h1 (by rw [hend]; exact hall r hr)
+
+/-- concrete instances on the defect layouts -/
+example : (fetchSeq .fixed d15Layout 112 100 [100, 100]).1 = (allRecords d15Layout).filter (fun r => 100 ≤ r.1) := by decide
 
 /-- on the legacy code the same budgets never get past the compacted tail -/
 theorem iterated_fetch_legacy_counterexample :
     (fetchSeq .legacy d15Layout 112 100 [100, 100, 100, 100]) = ([(100, 7), (101, 8)], 102) := by decide
+
+/-- §1 and §2 for the code as extracted now -/
+theorem single_fetch_current (items : List Item) (nb : Int) (hnb : 0 ≤ nb) (hwf : LWF nb items)
+    (o hwm : Int) (ho : 0 ≤ o) (hsafe : Safe o items) (hne : hwm ≠ o) (cut : Int) (expired : Bool) :
+    let res := readAll currentVariant expired o hwm (responseTokens items cut)
+    res.1 = (containedRecords items cut).filter (fun r => o ≤ r.1) ∧ res.2.2 ≠ .desync ∧
+    (∀ r ∈ allRecords items, o ≤ r.1 → r.1 < res.2.1 → r ∈ res.1) := by
+  rw [current_code_is_fixed]
+  have h := single_fetch items nb hnb hwf o hwm ho hsafe hne cut expired
+  exact ⟨h.1, h.2.1, h.2.2.1⟩
+
+theorem iterated_fetch_current (items : List Item) (nb : Int) (hnb : 0 ≤ nb) (hwf : LWF nb items) (hwm start : Int)
+    (hs : 0 ≤ start) (budgets : List Nat) :
+    let res := fetchSeq currentVariant items hwm start budgets
+    start ≤ res.2 ∧ (∀ r ∈ res.1, r ∈ allRecords items ∧ start ≤ r.1 ∧ r.1 < res.2) ∧
+    (∀ r ∈ allRecords items, start ≤ r.1 → r.1 < res.2 → r ∈ res.1) ∧ res.1.Pairwise (fun a b => a.1 < b.1) := by
+  rw [current_code_is_fixed]
+  exact iterated_fetch items nb hnb hwf hwm start hs budgets
 
 /-! ## 3. The Reader's loop (reader.go run / initialize / read) -/
 
@@ -150,7 +262,8 @@ example : initializeRL { offset := 107 } 100 115 = some { offset := 107, connOpe
 /-- `out_of_range_seeks` (D3 repaired): OffsetOutOfRange below the log start moves the position *and the connection*
 to the first offset -/
 theorem out_of_range_seeks (s : RL) (hwm first last : Int) (h : s.offset < first) :
-    onAnswer .fixed s hwm first last (.err 1) = .go { s with offset := first, connOff := first } := by
+    onAnswer currentVariant s hwm first last (.err 1) = .go { s with offset := first, connOff := first } := by
+  rw [current_code_is_fixed]
   simp [onAnswer, h]
 
 /-- D3 on the legacy code: the connection keeps its stale offset, so the same fetch is repeated forever -/
